@@ -71,3 +71,84 @@ def _call(I, env):
         ok = z3.And(*[u == exp for u in used])
     I.frames[-1].locals['num_sites_ok'] = ok
     return res
+
+
+# ---------------------------------------------------------------------------------------------------------------
+# MPO.is_equal / is_hermitian: which window of sites is compared.  All three overlaps use one num_sites: L for finite MPOs; for
+# infinite ones L + 2*max_range with the max_range *argument* if it is a finite number, else the MPO's own max_range if that is a
+# finite number, else L ("None defaults to max_range (or L in case this is infinite or None)").  The verdict is the documented
+# comparison of those overlaps.  overlap() itself is abstract here (its argument handling is under contract above).
+_OV = z3.Function('overlap_value', z3.IntSort(), z3.IntSort(), z3.IntSort(), z3.RealSort())     # (id of a, id of b, num_sites)
+
+
+def _eq_setup(I, env):
+    for k, nm in enumerate(('self', 'other')):
+        env[nm].attrs['uid'] = k
+        mr = env[nm].attrs['max_range']
+        if isinstance(mr, z3.ExprRef):
+            I.assume(mr >= 0)
+    if isinstance(env['max_range'], z3.ExprRef):
+        I.assume(env['max_range'] >= 0)
+    env['self'].attrs['finite'] = env['self'].attrs['bc'] == 'finite'
+    I.ghost['windows'] = []
+
+    def ov(I_, a, b, n):
+        from pyvc.values import to_z3
+        return _OV(a, b, to_z3(n))
+    B = __import__('pyvc.interp', fromlist=['Builtin']).Builtin
+    I.ghost['__env__'] = {'ov': B(ov, 'ov'), 'is_number': B(lambda I_, x: not (x is None or x is INF), 'is_number')}
+
+
+def _overlap_hook(I, f, args, kwargs):
+    from pyvc.values import to_z3
+    n = kwargs.get('num_sites')
+    I.ghost['windows'].append(n)
+    if not isinstance(n, (int, z3.ExprRef)):
+        from pyvc.interp import Unsupported
+        raise Unsupported('overlap called with a non-integer num_sites')
+    return _OV(f.self_obj.attrs['uid'], args[0].attrs['uid'], to_z3(n))
+
+
+def _mpo_eq(bc):
+    return Obj('MPO', MPO, {'bc': Const(bc), 'L': Int(), 'max_range': OneOf(None, INF, Int()), 'explicit_plus_hc': Const(False)})
+
+
+_N_DOC = ('ite(self.bc == "finite", self.L, '
+          'ite(is_number(max_range), self.L + 2 * max_range, '
+          'ite(is_number(self.max_range), self.L + 2 * self.max_range, self.L + 2 * self.L)))')
+
+
+def _eq_hunt():
+    """witness on real infinite MPOs that differ only by a term of range 3: equal on the default window of the short one,
+    different on a window that contains the long term"""
+    import warnings
+    warnings.simplefilter('ignore')
+    from tenpy.networks.site import SpinHalfSite
+    from tenpy.networks.terms import TermList
+    from tenpy.networks.mpo import MPOGraph
+    s = SpinHalfSite('Sz')
+    sites = [s] * 2
+
+    def build(terms, strengths):
+        g = MPOGraph.from_term_list(TermList(terms, strengths), sites, 'infinite')
+        return g.build_MPO()
+    short = build([[('Sz', 0), ('Sz', 1)], [('Sz', 1), ('Sz', 2)]], [1., 1.])
+    long_ = build([[('Sz', 0), ('Sz', 1)], [('Sz', 1), ('Sz', 2)], [('Sz', 0), ('Sz', 5)]], [1., 1., 0.5])
+    for a, b, mr, expect in ((short, long_, 6, False), (long_, short, 6, False), (short, short.copy(), 6, True), (short, long_, None, None)):
+        got = a.is_equal(b, max_range=mr)
+        if expect is not None and bool(got) != expect:
+            return {'input': {'self': 'SzSz chain' + (' + 0.5 Sz_0 Sz_5' if a is long_ else ''), 'other': 'SzSz chain' + (' + 0.5 Sz_0 Sz_5' if b is long_ else ''),
+                              'max_range': mr, 'self.max_range': a.max_range},
+                    'observed': f'is_equal -> {bool(got)}, the operators are {"equal" if expect else "different"} on that window'}
+    return None
+
+
+for _bc in ('finite', 'infinite'):
+    Contract(target=f'{MPO}::MPO.is_equal', props=['C11'], name=f'MPO.is_equal[{_bc}]',
+             params={'self': _mpo_eq(_bc), 'other': _mpo_eq(_bc), 'eps': z3.RealVal('1e-10') if False else __import__('pyvc.contract', fromlist=['Real']).Real(),
+                     'max_range': OneOf(None, INF, Int())},
+             setup=_eq_setup, hunt=_eq_hunt,
+             hooks={f'{MPO}::MPO.overlap': _overlap_hook, 'module:numpy.real': lambda I, x: x},
+             requires=['self.L >= 1 and eps > 0'],
+             ensures=['result == (abs(ov(0, 0, ' + _N_DOC + ') - 2 * ov(0, 1, ' + _N_DOC + ') + ov(1, 1, ' + _N_DOC + ')) < '
+                      'eps * abs(ov(0, 0, ' + _N_DOC + ') + ov(1, 1, ' + _N_DOC + ')))'])
